@@ -68,6 +68,7 @@ def run(sid, props):
             print(pid, p.returncode, lines[:2], detail[:1])
     finally:
         sh(["git", "-C", "/repo", "checkout", "--", "."])
+        sh(["git", "-C", ROOT, "checkout", "--", "evidence"])   # evidence written against a changed tree is not kept
     meta.setdefault("runs", []).append({"when": time.strftime("%Y-%m-%dT%H:%M:%S"), "results": out})
     meta["detected_by"] = sorted(set(meta.get("detected_by", [])) | {pid for pid, r in out.items() if r["exit"] == 1})
     json.dump(meta, open(os.path.join(d, "meta.json"), "w"), indent=1)
